@@ -46,23 +46,94 @@ fn note(size: usize) {
     });
 }
 
+/// Fault F21, "an allocator that honours alignment literally": a request for alignment 1 (what `Vec<u8>` and
+/// `Vec<[u8; 64]>` - the crate's working space - ask for) gets a block that starts 0..12 bytes past a 16-byte
+/// boundary, as bump and arena allocators hand out and as `GlobalAlloc` permits; glibc's malloc never does, so code
+/// that silently relies on 16-byte (or 8-byte) alignment of byte buffers is otherwise never exercised through the
+/// codecs. The shift is a function of the requested size alone (no state: `dealloc` recomputes it), zero for some
+/// sizes so that aligned buffers stay in the mix.
+#[inline]
+fn shift_for(layout: Layout) -> usize {
+    const SHIFT: [usize; 8] = [0, 1, 8, 0, 4, 2, 0, 12];
+    if layout.align() == 1 && layout.size() >= 64 {
+        SHIFT[(layout.size() >> 6) % 8]
+    } else {
+        0
+    }
+}
+
+#[inline]
+unsafe fn padded(layout: Layout) -> Layout {
+    // 16 spare bytes in front, base aligned to 16 so that the shift is what decides the final alignment
+    unsafe { Layout::from_size_align_unchecked(layout.size() + 16, 16) }
+}
+
 unsafe impl GlobalAlloc for CountingAlloc {
     unsafe fn alloc(&self, layout: Layout) -> *mut u8 {
         note(layout.size());
-        unsafe { System.alloc(layout) }
+        let shift = shift_for(layout);
+        if shift == 0 {
+            return unsafe { System.alloc(layout) };
+        }
+        let base = unsafe { System.alloc(padded(layout)) };
+        if base.is_null() {
+            base
+        } else {
+            unsafe { base.add(shift) }
+        }
     }
     unsafe fn dealloc(&self, ptr: *mut u8, layout: Layout) {
-        unsafe { System.dealloc(ptr, layout) }
+        let shift = shift_for(layout);
+        if shift == 0 {
+            unsafe { System.dealloc(ptr, layout) }
+        } else {
+            unsafe { System.dealloc(ptr.sub(shift), padded(layout)) }
+        }
     }
     unsafe fn alloc_zeroed(&self, layout: Layout) -> *mut u8 {
         note(layout.size());
-        unsafe { System.alloc_zeroed(layout) }
+        let shift = shift_for(layout);
+        if shift == 0 {
+            return unsafe { System.alloc_zeroed(layout) };
+        }
+        let base = unsafe { System.alloc_zeroed(padded(layout)) };
+        if base.is_null() {
+            base
+        } else {
+            unsafe { base.add(shift) }
+        }
     }
     unsafe fn realloc(&self, ptr: *mut u8, layout: Layout, new_size: usize) -> *mut u8 {
         if new_size > layout.size() {
             note(new_size);
         }
-        unsafe { System.realloc(ptr, layout, new_size) }
+        let new_layout = unsafe { Layout::from_size_align_unchecked(new_size, layout.align()) };
+        let (old_shift, new_shift) = (shift_for(layout), shift_for(new_layout));
+        if old_shift == 0 && new_shift == 0 {
+            return unsafe { System.realloc(ptr, layout, new_size) };
+        }
+        // the block moves to wherever the new size's shift puts it
+        let fresh = if new_shift == 0 {
+            unsafe { System.alloc(new_layout) }
+        } else {
+            let base = unsafe { System.alloc(padded(new_layout)) };
+            if base.is_null() {
+                base
+            } else {
+                unsafe { base.add(new_shift) }
+            }
+        };
+        if !fresh.is_null() {
+            unsafe {
+                std::ptr::copy_nonoverlapping(ptr, fresh, layout.size().min(new_size));
+                if old_shift == 0 {
+                    System.dealloc(ptr, layout);
+                } else {
+                    System.dealloc(ptr.sub(old_shift), padded(layout));
+                }
+            }
+        }
+        fresh
     }
 }
 
